@@ -1,5 +1,6 @@
 import SnaxVerif.Drv.C07
 import SnaxVerif.Model.AccfgRules
+import SnaxVerif.Model.AccfgTaint
 namespace SnaxVerif.Drv.C01
 open Lean SnaxVerif SnaxVerif.Drv SnaxVerif.Accfg SnaxVerif.Drv.C07
 
@@ -24,7 +25,7 @@ def step : Handler := fun j => do
        | some (.setup a fs) =>
          (match insertAt path (.setup a fs) b, insertAt path (.ghost a fs) b with
           | some b2, some bg =>
-            (blockToJson b2).compress == (blockToJson b').compress && noGhostB b' && wfB bg && okBb fields bg noFacts
+            (blockToJson b2).compress == (blockToJson b').compress && noGhostB b' && ((wfB bg && okBb fields bg noFacts) || okTB fields bg [])
           | _, _ => false)
        | _ => false)
     | .dce, some b' => dceSide path b b'
